@@ -68,7 +68,7 @@ func phase(aSends bool, api string, msgs ...ss.Msg) ss.Step {
 	st := ss.Step{Kind: "phase", ASends: aSends}
 	for _, m := range msgs {
 		st.SOps = append(st.SOps, m.SOps()...)
-		st.ROps = append(st.ROps, ss.ROpsFor(api, len(m.Bytes()), 7)...)
+		st.ROps = append(st.ROps, ss.ROpsFor(api, len(m.Bytes()), 5+len(m.Bytes())/3)...)
 	}
 	return st
 }
